@@ -113,6 +113,10 @@ def run(ctx):
                     viol.append({"what": "key block length on a reused object differs from a fresh object with the same header (stale mask)",
                                  "input": {"ops": [core.op_token(x)[:60] for x in ops]}, "expected": len(fresh), "observed": len(core.unshow_str(out[4:]))})
     dist["algorithm_switch_sequences"] = len(seqs)
+    tv, tcalls = t.threaded_wraps(ctx.rng, "length", rounds=1 if not ctx.thorough else 3)
+    viol += tv
+    evals += tcalls
+    dist["wraps_on_shared_object_under_threads"] = tcalls
     return {"evaluations": evals, "distinct_nontrivial": len(seen), "samples": samples, "distribution": dist,
             "diffs": diffs, "violations": viol, "exhaustive": bool(ctx.thorough),
             "rule": "versions A-D x algorithms {T,D,A,R,0} x mask {None, -8..64} x key lengths 0..64 x block layouts "
